@@ -171,6 +171,23 @@ Check (C11_hs_removed_is_silent :
     HSModel.has k h = false -> (forall rd, ~ In (k, rd) (HSModel.ready h)) ->
     (forall rd, HSModel.poll h ord <> (h', HSModel.PNeg k rd)) /\ HSModel.poll h ord <> (h', HSModel.PErr k)).
 Check (C11_hs_stale_ready_refuted :
-  map snd (HSModel.hrun HSModel.hs0 HSProofs.w_stale) =
+  map snd (HSModel.hrun0 HSModel.hs0 HSProofs.w_stale) =
   [HSModel.PPending; HSModel.PPending; HSModel.PPending; HSModel.PPending; HSModel.PErr 1;
    HSModel.PPending; HSModel.PPending; HSModel.PPending; HSModel.PNeg 0 true]).
+Check (C11_hs_stale_ready_repaired :
+  map snd (HSModel.hrun HSModel.hs0 HSProofs.w_stale) =
+  [HSModel.PPending; HSModel.PPending; HSModel.PPending; HSModel.PPending; HSModel.PErr 1;
+   HSModel.PPending; HSModel.PPending; HSModel.PPending; HSModel.PPending]).
+Check (C11_hs_calls_forget :
+  forall (h : HSModel.hs) (c : HSModel.hcall),
+    let k := match c with
+             | HSModel.NegOut p | HSModel.RemOut p => HSModel.mkkey p true
+             | HSModel.ReadIn p | HSModel.SendIn p | HSModel.RemIn p => HSModel.mkkey p false
+             end in
+    forall rd, ~ In (k, rd) (HSModel.ready (HSModel.call h c))).
+Check (C11_hs_removed_stays_silent :
+  forall (h : HSModel.hs) (p : HSModel.peer) (out : bool) (ord : list HSModel.key) (h' : HSModel.hs),
+    (forall rd, HSModel.poll (HSModel.call h (if out then HSModel.RemOut p else HSModel.RemIn p)) ord <>
+                (h', HSModel.PNeg (HSModel.mkkey p out) rd)) /\
+    HSModel.poll (HSModel.call h (if out then HSModel.RemOut p else HSModel.RemIn p)) ord <>
+    (h', HSModel.PErr (HSModel.mkkey p out))).
